@@ -733,6 +733,72 @@ def variant_files(pkg, pname):
     return out
 
 
+DECL_FORMS = ["default:typed-literal", "default:typed-unexported", "default:typed-exported", "default:group-doc", "default:paren-value",
+              "default:conv-value", "aliases:typed-literal", "aliases:typed-unexported", "aliases:typed-exported", "aliases:named-composite",
+              "aliases:group-doc"]
+
+
+def gen_decl_form(rng, form):
+    """the DECLARATION FORM of the magic variables: typed with a literal / an unexported / an exported named type, inside a
+    documented group, with a parenthesised or converted value"""
+    pkg = gen_package(rng, unicode=False, cli=False, nfiles=rng.choice([1, 2, 2]), size=rng.choice([3, 5]))
+    which, kind = form.split(":")
+    magic = "Default" if which == "default" else "Aliases"
+    pkg["vars"] = [v for v in pkg["vars"] if not any(magic in sp["names"] for sp in v["specs"])]
+    used = {go_lower(x) for x in package_identifiers(pkg)} | {go_lower(h["name"]) for h in pkg["helpers"]} | \
+        {go_lower(n) for v in pkg["vars"] for sp in v["specs"] for n in sp["names"]}
+    nm = [n for n in FUNC_NAMES if go_lower(n) not in used][0]
+    used.add(go_lower(nm))
+    witherr = rng.random() < 0.5
+    f = gen_func(rng, nm, None, None)            # the function the declaration names: no parameters
+    f["params"], f["file"] = [], rng.randrange(pkg["nfiles"])
+    f["res"] = [{"names": 0, "kind": "error", "spell": "error", "zero": "nil"}] if witherr else []
+    pkg["funcs"].append(f)
+    sig = "func() error" if witherr else "func()"
+    fileno = rng.randrange(pkg["nfiles"])
+    tname = lambda exported_: [n for n in (["Step", "Stage", "Task"] if exported_ else ["step", "stage", "task"]) if go_lower(n) not in used][0]
+    mname = lambda exported_: [n for n in (["Shortcuts", "Abbrevs"] if exported_ else ["shortcuts", "abbrevs"]) if go_lower(n) not in used][0]
+    helper = lambda n, text: pkg["helpers"].append({"kind": "type", "name": n, "file": rng.randrange(pkg["nfiles"]), "text": text})
+    ref = {"ref": ["ident", nm]}
+    spec = {"names": [magic], "values": [ref]}
+    decl = {"file": fileno, "paren": False, "specs": [spec]}
+    if which == "default":
+        if kind == "typed-literal":
+            spec["typed"] = sig
+        elif kind in ("typed-unexported", "typed-exported"):
+            t = tname(kind == "typed-exported")
+            helper(t, "type %s %s\n" % (t, sig))
+            spec["typed"] = t
+        elif kind == "group-doc":
+            decl.update(paren=True, doc="%s is what plain `mage` runs." % magic)
+            decl["specs"] = [{"names": ["Retries"], "values": [{"lit": "3"}]}, spec, {"names": ["quietMode"], "values": [{"lit": "true"}]}]
+        elif kind == "paren-value":
+            ref["wrap"] = "paren"
+        elif kind == "conv-value":
+            t = tname(False)
+            helper(t, "type %s %s\n" % (t, sig))
+            ref["wrap"] = "conv:" + t
+    else:
+        m = {"map": [[rng.choice(["bb", "q2", "sc"]), ["ident", nm]]]}
+        spec["values"] = [m]
+        if kind == "typed-literal":
+            spec["typed"] = "map[string]interface{}"
+        elif kind in ("typed-unexported", "typed-exported"):
+            t = mname(kind == "typed-exported")
+            helper(t, "type %s map[string]interface{}\n" % t)
+            spec["typed"] = t
+            m["maptype"] = t
+        elif kind == "named-composite":
+            t = mname(False)
+            helper(t, "type %s map[string]interface{}\n" % t)
+            m["maptype"] = t
+        elif kind == "group-doc":
+            decl.update(paren=True, doc="Aliases are short names.")
+            decl["specs"] = [{"names": ["Retries"], "values": [{"lit": "3"}]}, spec]
+    pkg["vars"].append(decl)
+    return pkg
+
+
 def gen_with_imports(rng):
     """a package that mage:import's two packages (one bare, one under an alias) whose target names coincide with
     names of the magefile's own namespace METHODS and with prefixes of its target names"""
@@ -991,8 +1057,10 @@ def render_value(v):
     if "call" in v:
         return v["call"] + "()"
     if "ref" in v:
-        return render_ref(v["ref"])
-    return "map[string]interface{}{\n" + "".join('\t"%s": %s,\n' % (k, render_ref(r)) for k, r in v["map"]) + "}"
+        r = render_ref(v["ref"])
+        w = v.get("wrap")          # (Build) / step(Build): the same function value, written as another expression
+        return ("(%s)" % r) if w == "paren" else ("%s(%s)" % (w[5:], r) if w else r)
+    return v.get("maptype", "map[string]interface{}") + "{\n" + "".join('\t"%s": %s,\n' % (k, render_ref(r)) for k, r in v["map"]) + "}"
 
 
 def render_package(pkg, pname):
@@ -1033,13 +1101,14 @@ def render_package(pkg, pname):
             ty = (" " + s["typed"]) if s.get("typed") else ""
             rhs = (" = " + ", ".join(render_value(x) for x in s["values"])) if s["values"] else ""
             lines.append(", ".join(s["names"]) + ty + rhs)
+        doc = ("// " + v["doc"] + "\n") if v.get("doc") else ""
         if v["paren"]:
-            bodies[v["file"]].append("var (\n" + "".join("\t" + l + "\n" for l in lines) + ")\n")
+            bodies[v["file"]].append(doc + "var (\n" + "".join("\t" + l + "\n" for l in lines) + ")\n")
         else:
-            bodies[v["file"]].append("var " + lines[0] + "\n")
+            bodies[v["file"]].append(doc + "var " + lines[0] + "\n")
     for h in pkg["helpers"]:
         n = h["name"]
-        if h["kind"] == "raw":
+        if h["kind"] == "raw" or h.get("text"):
             bodies[h["file"]].append(h["text"])
             continue
         text = {"func": "func %s() int { return 1 }\n", "var": "var %s = 3\n", "const": "const %s = 1\n", "type": "type %s struct{}\n"}[h["kind"]] % n
@@ -1191,6 +1260,19 @@ def oracle_default(pkg):
     return None
 
 
+def default_undecided(pkg):
+    """Default is initialised with a function written as another expression ((Build), step(Build)): the same
+    value by Go's semantics, not a name the code resolves - the mark is left undecided"""
+    return any("Default" in sp["names"] and sp["names"].index("Default") < len(sp["values"]) and sp["values"][sp["names"].index("Default")].get("wrap")
+               for v in pkg["vars"] for sp in v["specs"])
+
+
+def package_level_in_godoc(dv, name):
+    """does go/doc (harness/docview, mode 0) keep the variable among the package's Vars?  A variable declared with
+    a VISIBLE named type of the package is filed under that type instead - the reference for 'the declared default'"""
+    return any(name in v["names"] for v in dv["vars"])
+
+
 def oracle_aliases(pkg, f):
     out = []
     for v in pkg["vars"]:
@@ -1234,6 +1316,8 @@ def coq_ref(r):
 
 
 def coq_value(v):
+    if "ref" in v and v.get("wrap"):
+        return "(VRef FOther)"
     if "ref" in v:
         return "(VRef %s)" % coq_ref(v["ref"])
     if "map" in v:
@@ -1241,7 +1325,7 @@ def coq_value(v):
     return "(VRef FOther)"
 
 
-def coq_pkg(pkg, docs, pkgdoc):
+def coq_pkg(pkg, docs, pkgdoc, hidden_vars=()):
     """docs: {def-id: (doc, syn)} as the real go/doc reports them"""
     ds = []
     for f in pkg["funcs"]:
@@ -1255,6 +1339,8 @@ def coq_pkg(pkg, docs, pkgdoc):
           for t in all_types(pkg)]
     vs = []
     for v in all_vars(pkg):
+        if any(n in hidden_vars for sp in v["specs"] for n in sp["names"]):
+            continue            # go/doc files this declaration under a type (fed from the real go/doc)
         vs.append(coq_list(["{| vnames := %s; vtyped := %s; vvalues := %s |}" % (
             coq_list([coq_str(n) for n in s["names"]]), coq_bool(bool(s.get("typed"))), coq_list([coq_value(x) for x in s["values"]])) for s in v["specs"]]))
     return "{| decls := %s; types := %s; vars := %s; pkgdoc := %s |}" % (coq_list(ds), coq_list(ts), coq_list(vs), coq_str(pkgdoc))
